@@ -99,7 +99,7 @@ Proof.
 Qed.
 
 (** fix-hasattr-call, idempotent on its own output's root: callable(..) is not a hasattr call *)
-Lemma C07_kernel_hasattr_step_stable a : hasattr_step (ECall BCallable [a]) = ECall BCallable [a].
+Lemma C07_kernel_hasattr_step_stable cfg a : hasattr_step cfg (ECall BCallable [a]) = ECall BCallable [a].
 Proof. reflexivity. Qed.
 
 (** * C01: well-formedness *)
@@ -136,10 +136,10 @@ Proof. intros H. exact H. Qed.
 
 (** * C02: names *)
 (** fix-hasattr-call introduces exactly one name, the builtin `callable` *)
-Lemma C02_kernel_hasattr_step_names a rest :
-  incl_str (names (hasattr_step (ECall BHasattr (a :: rest)))) (names (ECall BHasattr (a :: rest)) ++ builtin_names).
+Lemma C02_kernel_hasattr_step_names cfg a rest :
+  incl_str (names (hasattr_step cfg (ECall BHasattr (a :: rest)))) (names (ECall BHasattr (a :: rest)) ++ builtin_names).
 Proof.
-  cbn [hasattr_step]. destruct (last_is_call_lit (a :: rest)); [|intros x Hx; apply in_or_app; left; exact Hx].
+  cbn [hasattr_step]. destruct (hasattr_fires cfg a rest); [|intros x Hx; apply in_or_app; left; exact Hx].
   intros x Hx. cbn [names] in Hx. destruct Hx as [<-|Hx].
   - apply in_or_app. right. vm_compute. tauto.
   - apply in_or_app. left. cbn [names]. right. rewrite app_nil_r in Hx. apply in_or_app. left. exact Hx.
@@ -170,3 +170,82 @@ Proof.
   intros y Hy. cbn [names] in *. destruct Hy as [<-|Hy]; [left; reflexivity|right].
   rewrite app_nil_r in Hy. apply in_or_app. left. exact Hy.
 Qed.
+
+(** * fix-empty-sequence-comparison (site level: the node that replaces a matching comparison) *)
+Lemma wf_cmp_single p l o c : wf (ECmp p l [(o, c)]) = true -> wf l = true /\ gen_par l = true /\ wf c = true /\ gen_par c = true.
+Proof.
+  cbn [wf]. intros H. apply andb_true_iff in H as [H Hr]. apply andb_true_iff in H as [H _]. apply andb_true_iff in H as [Hl Gl].
+  apply andb_true_iff in Hr as [Hr _]. apply andb_true_iff in Hr as [Hr _]. apply andb_true_iff in Hr as [Hc Gc].
+  repeat split; assumption.
+Qed.
+Lemma C01_kernel_empty_seq_wf cfg in_test e :
+  wf e = true -> wf (empty_seq_new cfg (empty_seq_action in_test e) e) = true.
+Proof.
+  intros W. destruct e as [| | | | | | | | | |p l rest| | | |]; try exact W.
+  destruct rest as [|[o c] [|? ?]]; try exact W. unfold empty_seq_action.
+  destruct (is_empty_seq l || is_empty_seq c); [|exact W].
+  destruct (wf_cmp_single p l o c W) as (Wl & Gl & Wc & Gc).
+  assert (Wx : wf (if is_empty_seq l then c else l) = true /\ gen_par (if is_empty_seq l then c else l) = true)
+    by (destruct (is_empty_seq l); split; assumption).
+  destruct Wx as [Wx Gx].
+  destruct o; try exact W.
+  - cbn [empty_seq_new wf]. rewrite Wx, Gx. reflexivity.
+  - destruct in_test; [exact Wx|]. destruct (has_value_attr _); [|exact W]. cbn [empty_seq_new wf]. exact Wx.
+Qed.
+(** in context the pinned form (no parentheses on the new `not`) can print text that does not parse: 2 // (v1 == []) -> 2 // not v1 *)
+Definition w_es_floordiv_text : str := lit "(2 // not v1)".
+Definition bool_name : str := lit "bool".
+Definition w_es_floordiv : expr := EFloorDiv (EConst (CInt 2)) (ECmp true (EName 1) [(Eq, EList [])]).
+Lemma C01_kernel_empty_seq_pinned_refuted :
+  wf w_es_floordiv = true /\ wf (empty_seq_file pinned_empty_seq false w_es_floordiv) = false /\
+  pp (empty_seq_file pinned_empty_seq false w_es_floordiv) = w_es_floordiv_text /\
+  wf (empty_seq_file repaired_empty_seq false w_es_floordiv) = true.
+Proof. vm_compute. repeat split. Qed.
+Lemma C02_kernel_empty_seq_names cfg in_test e :
+  incl_str (names (empty_seq_new cfg (empty_seq_action in_test e) e)) (names e ++ builtin_names).
+Proof.
+  assert (Self : incl_str (names e) (names e ++ builtin_names)) by (intros y Hy; apply in_or_app; left; exact Hy).
+  destruct e as [| | | | | | | | | |p l rest| | | |]; try exact Self.
+  destruct rest as [|[o c] [|? ?]]; try exact Self. unfold empty_seq_action.
+  destruct (is_empty_seq l || is_empty_seq c); [|exact Self].
+  assert (Sub : incl_str (names (if is_empty_seq l then c else l)) (names (ECmp p l [(o, c)]) ++ builtin_names)).
+  { intros y Hy. apply in_or_app. left. cbn [names]. rewrite app_nil_r. apply in_or_app. destruct (is_empty_seq l); [right|left]; exact Hy. }
+  destruct o; try exact Self.
+  - exact Sub.
+  - destruct in_test; [exact Sub|]. destruct (has_value_attr _); [|exact Self].
+    cbn [empty_seq_new]. intros y Hy. cbn [names] in Hy. destruct Hy as [<-|Hy].
+    + apply in_or_app. right. vm_compute. tauto.
+    + rewrite app_nil_r in Hy. apply Sub, Hy.
+Qed.
+(** the replacement is built from the ORIGINAL operands: ((v1 == []) == []) -> (not (v1 == [])) -> (not (not v1))    [reproduced on /repo] *)
+Definition w_es_nested : expr := ECmp true (ECmp true (EName 1) [(Eq, EList [])]) [(Eq, EList [])].
+Lemma C07_kernel_empty_seq_refuted cfg :
+  wf w_es_nested = true /\
+  empty_seq_file cfg false (empty_seq_file cfg false w_es_nested) <> empty_seq_file cfg false w_es_nested.
+Proof. destruct cfg as [[]]; vm_compute; (split; [reflexivity|discriminate]). Qed.
+
+(** * literal-or-new-object-identity (site level) *)
+Lemma C01_kernel_identity_wf e e' : identity_f e = Some e' -> wf e = true -> wf e' = true.
+Proof.
+  destruct e as [| | | | | | | | | |p l rest| | | |]; try discriminate. destruct rest as [|[o c] [|? ?]]; try discriminate.
+  cbn [identity_f]. destruct (is_literal_or_new l || is_literal_or_new c); [|discriminate].
+  destruct o; try discriminate; intros H W; injection H as <-; exact W.
+Qed.
+Lemma C02_kernel_identity_names e e' : identity_f e = Some e' -> names e' = names e.
+Proof.
+  destruct e as [| | | | | | | | | |p l rest| | | |]; try discriminate. destruct rest as [|[o c] [|? ?]]; try discriminate.
+  cbn [identity_f]. destruct (is_literal_or_new l || is_literal_or_new c); [|discriminate].
+  destruct o; try discriminate; intros H; injection H as <-; reflexivity.
+Qed.
+(** ((v1 is []) is []) -> ((v1 is []) == []) -> ((v1 == []) == [])                                                  [reproduced on /repo] *)
+Definition w_id_nested : expr := ECmp true (ECmp true (EName 1) [(Is, EList [])]) [(Is, EList [])].
+Lemma C07_kernel_identity_refuted :
+  wf w_id_nested = true /\ rw_identity (rw_identity w_id_nested) <> rw_identity w_id_nested.
+Proof. vm_compute. split; [reflexivity|discriminate]. Qed.
+
+(** use-set-literal: the printed replacement of a non-empty `set([...])` starts with `{`; directly after the `{` of an f-string
+    replacement field that reads as an escaped brace, so the field must keep the two apart (table value
+    [set_literal_fstring_spaced]; the pinned form did not: finding kf_set_literal_fstring_braces, fixed by 4169bc3) *)
+Lemma C01_kernel_set_literal_brace_first a es :
+  exists rest, pp (rw_set_literal (ECall BSet [EList (a :: es)])) = 123%N :: rest.
+Proof. eexists. cbn [rw_set_literal pp]. reflexivity. Qed.
